@@ -562,6 +562,35 @@ func (fv *FV) execRange(st *State, x *ast.RangeStmt, label string, ctl *Ctl, k K
 		}
 		inner := ctl.with(label, k, endIter)
 		fv.execBlock(it, x.Body.List, inner, endIter)
+	case *types.Chan:
+		// receive-only iteration over a channel: an arbitrary finite sequence of values (termination is not shown)
+		fv.evalExpr(st, x.X)
+		if ls == nil {
+			ls = &LoopSpec{}
+		}
+		fv.note("range over a channel is treated as iteration over an arbitrary finite sequence")
+		fv.checkInvs(st, ls, bodyPos, "inv-entry")
+		ms := fv.modifiedIn(x.Body)
+		ko := keyObj(x.Key)
+		if ko != nil {
+			delete(ms.objs, ko)
+		}
+		fv.havoc(st, ms)
+		fv.assumeInvs(st, ls, bodyPos)
+		ex := st.clone()
+		fv.countPath(x.Pos())
+		k(ex)
+		it := st
+		if ko != nil {
+			it.vars[ko] = fv.fresh(ko.Name(), fv.ss.Of(ko.Type()))
+			delete(it.alias, ko)
+		}
+		fv.mention(it, ls, bodyPos)
+		endIter := func(s2 *State) {
+			fv.checkInvs(s2, ls, bodyPos, "inv-preserved")
+		}
+		inner := ctl.with(label, k, endIter)
+		fv.execBlock(it, x.Body.List, inner, endIter)
 	default:
 		fv.abort(x.Pos(), "range over %s is outside the subset", xt)
 	}
